@@ -375,6 +375,9 @@ type CqlServerConnection struct {
 	handlerCtx         []RequestHandlerContext
 	incoming           chan *frame.Frame
 	outgoing           chan *response
+	// channelsLock is held for reading around every (non-blocking) send on incoming and outgoing, and for writing
+	// while Close closes them: a send on a channel closed in between would panic.
+	channelsLock       sync.RWMutex
 	waitGroup          *sync.WaitGroup
 	closed             int32
 	onClose            func(*CqlServerConnection)
@@ -664,12 +667,14 @@ func (c *CqlServerConnection) reportConnectionFailure(err error, read bool) (abo
 
 func (c *CqlServerConnection) processIncomingFrame(incoming *frame.Frame) {
 	log.Debug().Msgf("%v: received incoming frame: %v", c, incoming)
+	c.channelsLock.RLock()
 	select {
 	case c.incoming <- incoming:
 		log.Debug().Msgf("%v: incoming frame successfully delivered: %v", c, incoming)
 	default:
 		log.Error().Msgf("%v: incoming frames queue is full, discarding frame: %v", c, incoming)
 	}
+	c.channelsLock.RUnlock()
 	if len(c.handlers) > 0 {
 		c.invokeRequestHandlers(incoming)
 	}
@@ -725,6 +730,8 @@ func (c *CqlServerConnection) Send(f *frame.Frame) error {
 		return fmt.Errorf("%v: connection closed", c)
 	}
 	log.Debug().Msgf("%v: enqueuing outgoing frame: %v", c, f)
+	c.channelsLock.RLock()
+	defer c.channelsLock.RUnlock()
 	select {
 	case c.outgoing <- newFrameResponse(f):
 		log.Debug().Msgf("%v: outgoing frame successfully enqueued: %v", c, f)
@@ -740,6 +747,8 @@ func (c *CqlServerConnection) SendRaw(rawResponse []byte) error {
 		return fmt.Errorf("%v: connection closed", c)
 	}
 	log.Debug().Msgf("%v: enqueuing outgoing raw response: %v", c, rawResponse)
+	c.channelsLock.RLock()
+	defer c.channelsLock.RUnlock()
 	select {
 	case c.outgoing <- newRawResponse(rawResponse):
 		log.Debug().Msgf("%v: outgoing frame successfully enqueued: %v", c, rawResponse)
@@ -784,12 +793,14 @@ func (c *CqlServerConnection) Close() (err error) {
 		log.Debug().Msgf("%v: closing", c)
 		c.cancel()
 		err = c.conn.Close()
+		c.channelsLock.Lock()
 		incoming := c.incoming
 		outgoing := c.outgoing
 		c.incoming = nil
 		c.outgoing = nil
 		close(incoming)
 		close(outgoing)
+		c.channelsLock.Unlock()
 		c.waitGroup.Wait()
 		c.onClose(c)
 		if err != nil {
